@@ -5,4 +5,4 @@ From Coq Require Import ExtrOcamlBasic.
 From DV Require Import Prelude Cost Grid Dtw DtwSpec Bounds Traceback Matrix NW Search Cluster ClusterPart PyDist PyWps KBest RelaxedEndSpec.
 From DVGen Require Import Gen_matrix.
 Extraction Language OCaml.
-Extraction "model.ml" dtw_model wps_matrix ed_model lb_keogh_model best_path_model adj_penalty pairs gen_length py_distance_array_index NM tbo search fit_model dist_model distp_model wps_code_model kbest clusters_model warping_path_model.
+Extraction "model.ml" dtw_model wps_matrix ed_model lb_keogh_model best_path_model adj_penalty pairs gen_length py_distance_array_index NM tbo search fit_model dist_model distp_model wps_code_model kbest clusters_model warping_path_model marks_model.
